@@ -81,6 +81,10 @@ SOAK = [
     ("index_assign_vs_pop", "list", [1, 2, 3, 4],
      ["for i in 0..N\n  try\n    shared[(size shared) - 1] = i\n  catch e\n    null\n", "for i in 0..N\n  shared.pop()\n  shared.push 0\n", "for i in 0..N\n  try\n    x = shared[(size shared) - 1]\n  catch e\n    null\n"],
      lambda fin, th, N: None),
+    ("index_read_vs_writers", "list", [1, 2, 3, 4, 5, 6, 7, 8],
+     ["s = 0\nfor i in 0..M\n  s += shared[1]\n", "s = 0\nfor i in 0..M\n  s += shared[0]\n", "for i in 0..M\n  shared.push i\n  shared.pop()\n",
+      "for i in 0..M\n  shared[2] = i\n"],
+     lambda fin, th, N: None if len(fin) == 8 else "pushes and pops did not balance: %d elements" % len(fin)),
     ("reverse_sort_vs_readers", "list", [5, 3, 1, 4, 2],
      ["for i in 0..N\n  shared.sort()\n  shared.reverse()\n", "bad = 0\nfor i in 0..N\n  if shared.to_tuple().sum() != 15\n    bad += 1\nprint bad\n"],
      lambda fin, th, N: None if all((t.get("stdout") or "0").strip() in ("", "0") for t in th) else "a reader saw a partially sorted list: %s" % [t.get("stdout") for t in th]),
@@ -199,7 +203,9 @@ def run(tier, seed):
             raise common.ToolError("self-test: a round with corrupted final contents was accepted")
     # ---- (3b) soak rounds
     N = 3000 if quick else 60000
-    sj = [{"id": i, "kind": kind, "init": init, "scripts": [s.replace("N", str(N)) for s in scripts]} for i, (name, kind, init, scripts, chk) in enumerate(SOAK)]
+    M = 150000 if quick else 1500000       # iterations of the cheap index-read round
+    sj = [{"id": i, "kind": kind, "init": init, "scripts": [s.replace("M", str(M)).replace("N", str(N)) for s in scripts], "watchdog_s": 60 if quick else 900}
+          for i, (name, kind, init, scripts, chk) in enumerate(SOAK)]
     sres = common.kv_parallel("threads", sj, flavor="arc", per_job_timeout=600, shards=3)
     for (name, kind, init, scripts, chk), tr in zip(SOAK, sres):
         why = None
@@ -210,7 +216,7 @@ def run(tier, seed):
         else:
             why = chk(tr["final"], tr["threads"], N)
         if why:
-            rep.violation("soak_%s" % name, {"property": PROP, "why": why, "soak": name, "kind": kind, "init": init, "scripts": [s.replace("N", str(N)) for s in scripts],
+            rep.violation("soak_%s" % name, {"property": PROP, "why": why, "soak": name, "kind": kind, "init": init, "scripts": [s.replace("M", str(M)).replace("N", str(N)) for s in scripts],
                                              "iterations": N})
     rep.coverage = {
         "states": states, "transitions": states, "traces_validated_against_impl": 2 * len(jobs) + len(recs) + len(SOAK),
